@@ -619,11 +619,17 @@ def set_cardinality(setkey):
 def console_entry(P, script="potable"):
     """the function setup.py registers as console script (the public anchor of every command-line obligation)"""
     import re as _re
-    txt = open(os.path.join(P.repo, "setup.py"), encoding="utf-8").read()
-    m = _re.search(r"['\"]\s*%s\s*=\s*([\w.]+)\s*:\s*(\w+)\s*['\"]" % _re.escape(script), txt)
-    if not m:
-        raise AnalysisError("setup.py registers no console script %r" % script)
-    return P.func(m.group(1), m.group(2))
+    # setup.py ('potable=mod:func'), setup.cfg ([options.entry_points] potable = mod:func) or pyproject.toml
+    # ([project.scripts] potable = "mod:func")
+    for fname in ("setup.py", "setup.cfg", "pyproject.toml"):
+        path = os.path.join(P.repo, fname)
+        if not os.path.exists(path):
+            continue
+        txt = open(path, encoding="utf-8").read()
+        m = _re.search(r"(?:^|['\"\s])%s\s*=\s*['\"]?\s*([A-Za-z_][\w.]*)\s*:\s*([A-Za-z_]\w*)" % _re.escape(script), txt, _re.M)
+        if m:
+            return P.func(m.group(1), m.group(2))
+    raise AnalysisError("no console script %r is registered in setup.py, setup.cfg or pyproject.toml" % script)
 
 
 class ArgParserModel(object):
